@@ -2,6 +2,7 @@ package checks
 
 import (
 	"fmt"
+	"sort"
 	"time"
 
 	rt "github.com/enbility/spine-go/internal/verifrt"
@@ -140,7 +141,10 @@ func c17Ops() []c17Op {
 			_, _ = c.a.Dev.Sender().DatagramForMsgCounter(4)
 		}},
 		{"local:readers", func(c *c17World) {
-			for _, d := range c.w.L.RemoteDevices() {
+			devs := c.w.L.RemoteDevices()
+			// (RemoteDevices iterates a map: fix the order, so that the sequence of scheduling points is reproducible)
+			sort.Slice(devs, func(i, j int) bool { return devs[i].Ski() < devs[j].Ski() })
+			for _, d := range devs {
 				for _, e := range d.Entities() {
 					for _, f := range e.Features() {
 						_ = f.Operations()
